@@ -79,6 +79,23 @@ IpOpts(var) ==
 O(k, dd) == [k |-> k, d |-> dd]
 Nop == O(1, <<>>)
 Eol == O(0, <<>>)
+\* Multipath TCP options, assembled from their fields (MpEnc, PktWireLayers)
+MpCapable(d, li, both) ==
+  O(30, MpEnc(<<Fld("subtype", <<0>>), Fld("version", <<VU(d, li, 21, 4)>>), Fld("flags", <<VU(d, li, 22, 8)>>), Fld("skey", VB(d, li, 23, 8))>>
+              \o (IF both = 1 THEN <<Fld("rkey", VB(d, li, 24, 8))>> ELSE <<>>)))
+MpJoin(d, li, phase) ==
+  LET h == <<Fld("subtype", <<1>>), Fld("flags", <<VU(d, li, 21, 4)>>), Fld("addr", <<VU(d, li, 22, 8)>>)>>
+  IN O(30, MpEnc(CASE phase = 1 -> h \o <<Fld("rtoken", VB(d, li, 23, 4)), Fld("srand", VB(d, li, 24, 4))>>
+                   [] phase = 2 -> h \o <<Fld("shmac", VB(d, li, 23, 8)), Fld("srand", VB(d, li, 24, 4))>>
+                   [] OTHER -> h \o <<Fld("shmac", VB(d, li, 23, 20))>>))
+\* flag sets: Data ACK none / 4 / 8 octets x data sequence number none / 4 / 8 octets (not none + none), one with DATA_FIN
+DssFlagSets == <<1, 3, 4, 12, 5, 13, 7, 15, 16 + 13>>
+MpDss(d, li, fl) ==
+  O(30, MpEnc(<<Fld("subtype", <<2>>), Fld("flags", <<fl>>)>>
+              \o (IF DssAckLen(fl) > 0 THEN <<Fld("ack", Wide(VB(d, li, 25, DssAckLen(fl))))>> ELSE <<>>)
+              \o (IF DssDsnLen(fl) > 0 THEN <<Fld("dsn", Wide(VB(d, li, 26, DssDsnLen(fl)))), Fld("seq", VB(d, li, 27, 4)),
+                                                Fld("length", U16(VU(d, li, 28, 16))), Fld("csum", U16(VU(d, li, 29, 16)))>>
+                   ELSE <<>>)))
 TcpOpts(var, d, li) ==
   LET mss == O(2, U16(VU(d, li, 11, 16)))
       ws  == O(3, <<VU(d, li, 12, 4)>>)
@@ -96,6 +113,22 @@ TcpOpts(var, d, li) ==
        [] var = 10 -> <<sack(4), Nop, Nop, mss>>                       \* 40 bytes: the limit
        [] var = 11 -> <<O(99, <<>>), Nop, Nop>>
        [] var = 12 -> <<Nop, sack(3), Nop, ws>>                        \* SACK in the middle
+       \* Multipath TCP (RFC 6824): every option layout the RFC gives field by field
+       [] var = 13 -> <<mss, O(4, <<>>), MpCapable(d, li, 0)>>         \* SYN: sender's key
+       [] var = 14 -> <<MpCapable(d, li, 1), Nop, ws>>                 \* ACK: both keys
+       [] var = 15 -> <<mss, MpJoin(d, li, 1), ts>>                    \* SYN: token + random number
+       [] var = 16 -> <<MpJoin(d, li, 2)>>                             \* SYN/ACK: truncated HMAC + random number
+       [] var = 17 -> <<Nop, MpJoin(d, li, 3), Nop, ws>>               \* ACK: full HMAC
+       \* DSS, flags F m M a A: every combination of Data ACK width (none, 4, 8) and
+       \* data sequence number width (none, 4, 8), alone and between other options
+       [] var \in 18..26 -> <<MpDss(d, li, DssFlagSets[var - 17])>>
+       [] var = 27 -> <<Nop, Nop, MpDss(d, li, 13), mss>>              \* 4-octet Data ACK, 8-octet DSN
+       [] var = 28 -> <<ws, MpDss(d, li, 7), Nop, O(4, <<>>)>>         \* 8-octet Data ACK, 4-octet DSN
+       [] var = 29 -> <<MpDss(d, li, 4), MpDss(d, li, 19), sack(1)>>   \* two DSS options: mapping, then ACK + DATA_FIN
+       [] var = 30 -> <<Nop, Nop, ts, MpDss(d, li, 31)>>               \* 12 + 28 = 40 octets: the limit
+       \* subtypes carried as opaque data: ADD_ADDR (IPv4), REMOVE_ADDR, MP_PRIO, MP_FAIL, MP_FASTCLOSE, an unassigned one
+       [] var = 31 -> <<O(30, <<48 + 4, VU(d, li, 21, 8)>> \o VB(d, li, 22, 4)), O(30, <<64, VU(d, li, 23, 8)>>), O(30, <<80 + VU(d, li, 24, 1)>>)>>
+       [] var = 32 -> <<O(30, <<96, 0>> \o VB(d, li, 22, 8)), mss, O(30, <<112, 0>> \o VB(d, li, 23, 8)), O(30, <<240 + VU(d, li, 24, 4), VU(d, li, 21, 8)>>)>>
        [] OTHER -> <<>>
 
 T(t, dd) == [t |-> t, d |-> dd]
